@@ -1,9 +1,9 @@
 // Reproducer for the C20 findings: strict mode ACCEPTS these inputs, permissive
 // mode accepts them too, but returns a DIFFERENT result, because strict mode
 // silently swallows the parse error of a nested element (KeyUsage /
-// BasicConstraints extension value, RSASSA-PSS parameters, CSR attribute) whose only defect is a
-// mode-dependent DER nicety (non-minimal length octets), while permissive mode
-// parses the nested element.
+// BasicConstraints extension value, RSASSA-PSS parameters, CSR attribute)
+// whose only defect is a mode-dependent DER nicety (non-minimal length
+// octets), while permissive mode parses the nested element.
 //
 // Run twice (the switch is a process global, set once):
 //
